@@ -369,6 +369,22 @@ def r5(F, R):
             site = "%s @%s" % (p, b.loc())
             idw = [(bb, st, v) for (wb, bb, st, v, how) in K.field_writers(F, adt, "id") if wb.path == p]
             ldw = [(bb, st, v) for (wb, bb, st, v, how) in K.field_writers(F, adt, "logdet") if wb.path == p]
+            # writes performed by a helper method of the same type that the writer calls (on all of the helper's paths)
+            for bb, t in b.calls():
+                tgt = t["callee"].get("resolved") or t["callee"].get("path")
+                hb = F.bodies.get(tgt)
+                if hb is None or hb.path == p or hb.parent.get("self_adt") != adt or not t["args"]:
+                    continue
+                recv = b.value(t["args"][0])
+                while recv[0] in ("ref", "deref"):
+                    recv = recv[1]
+                if recv[0] != "arg" or recv[1] != 1:
+                    continue
+                hpd = hb.postdominators()
+                for fld, acc in (("id", idw), ("logdet", ldw)):
+                    for (wb, hbb, hst, hv, how) in K.field_writers(F, adt, fld):
+                        if wb.path == hb.path and how in ("assign", "call") and hbb in hpd.get(0, ()):
+                            acc.append((bb, hst, hv))
             pdom = b.postdominators()
             key = "%s:co-update" % p
             problems = []
